@@ -2,7 +2,10 @@
 // statement `f(a, b)` / `x.M(a)` of a function moves into a helper of its own, `func F_oN(r X, p0 A, p1 B) { r.M(p0, p1) }`,
 // called in its place with the same operands. The result is the same program written with many small helpers.
 // It is a self-test aid for the checker (the analysis normal form must see through helper extraction), not a check.
-// Second argument: take every k-th candidate only (default 1 = all).
+// Second argument: take every k-th candidate only (default 1 = all). Third argument, the mode: "stmt" (default),
+// "assign" (calls on the right of an assignment or in a return, value-returning helpers), "iife" (call statements
+// wrapped in a function literal called on the spot), "delegate" (every function's body moves to F_impl and F
+// becomes `return F_impl(args...)`).
 package main
 
 import (
@@ -138,6 +141,54 @@ func main() {
 					continue
 				}
 				if fd.Type.TypeParams != nil {
+					continue
+				}
+				if mode == "delegate" {
+					if fd.Name.Name == "init" || fd.Name.Name == "main" || fd.Name.Name == "_" {
+						continue
+					}
+					var names []string
+					good := true
+					for _, fl := range fd.Type.Params.List {
+						if len(fl.Names) == 0 {
+							good = false
+						}
+						for j, nm := range fl.Names {
+							if nm.Name == "_" {
+								good = false
+							}
+							a := nm.Name
+							if _, isVar := fl.Type.(*ast.Ellipsis); isVar && j == len(fl.Names)-1 {
+								a += "..."
+							}
+							names = append(names, a)
+						}
+					}
+					recv := ""
+					if fd.Recv != nil {
+						if len(fd.Recv.List) != 1 || len(fd.Recv.List[0].Names) != 1 || fd.Recv.List[0].Names[0].Name == "_" {
+							good = false
+						} else {
+							recv = fd.Recv.List[0].Names[0].Name + "."
+						}
+					}
+					if !good {
+						continue
+					}
+					cand++
+					if cand%every != 0 {
+						continue
+					}
+					impl := fd.Name.Name + "_impl"
+					ret := ""
+					if fd.Type.Results != nil && len(fd.Type.Results.List) > 0 {
+						ret = "return "
+					}
+					// header text up to the body, with the name replaced, followed by the old body
+					hdr := string(src[off(fd.Pos()):off(fd.Name.Pos())]) + impl + string(src[off(fd.Name.End()):off(fd.Body.Pos())])
+					helpers = append(helpers, hdr+text(fd.Body)+"\n")
+					edits = append(edits, edit{off(fd.Body.Pos()), off(fd.Body.End()), "{\n\t" + ret + recv + impl + "(" + strings.Join(names, ", ") + ")\n}"})
+					total++
 					continue
 				}
 				base := fd.Name.Name
